@@ -43,6 +43,8 @@ TINY = [
     {"name": "star_pattern_overlap", "pre": ["jobs.cfg"], "pubs": [[["jobs.a.cfg", 0], ["jobs.cfg", 0]]], "subs": ["jobs.*.cfg"]},
     # more than 32 channels in the table when a publisher to an existing channel races with a draining subscriber
     {"name": "many_channels_existing", "pre": ["hot"] + [f"c.{i}" for i in range(34)], "pubs": [[["hot", 1]]], "subs": ["*"], "bound": 1, "cap": 1500},
+    # two subscribers of one channel, three messages: a subscriber that still holds a drained deque meets the re-created channel
+    {"name": "two_subs_one_channel_three_messages", "pre": ["jobs.a"], "pubs": [[["jobs.a", 0]], [["jobs.a", 0]]], "subs": ["jobs.a", "jobs.a"], "bound": 1, "cap": 2500},
     {"name": "2pub_two_new_channels", "pre": [], "pubs": [[["jobs.a", 0], ["jobs.b", 1]], [["jobs.b", 0], ["jobs.a", 1]]], "subs": []},
 ]
 
